@@ -115,6 +115,8 @@ def verify_function(ex, qualname, contract, make_env, frame_obj='self',
         cx.line = fs.node.lineno
         cx.cover(st, 'pre_satisfiable')
         old = st.copy()
+        old.env = dict(st.env)
+        contract.entry_state = old
         outs = ex.run_function(fs, st, contract.loops)
         unit.paths = len(outs)
         for o in outs:
